@@ -170,6 +170,45 @@ def check_groups_table(pm, ctx, rid):
             ctx.ok(rid, site + f" [{tag}]", want)
 
 
+def check_groups_completion(pm, ctx, rid):
+    """a partial group list is completed with ONE SINGLETON group per feature that no group mentions"""
+    su = pm.unit("gemclus.sparse._base_sparse")
+    f = su.func("check_groups")
+    params = func_params(f)
+    groups, n = params[0], params[1]
+    L = _flat_index_var(f, groups)
+    site = "check_groups: completion of a partial group list"
+    comps = [c for c in ast.walk(f) if isinstance(c, ast.ListComp) and any(isinstance(g.iter, ast.Call) and call_name(g.iter) == "range" for g in c.generators)
+             and any(g.ifs for g in c.generators)]
+    if L is None or not comps:
+        ctx.unrecognised(rid, site, "no comprehension over range(n_features) filtered by membership")
+        return
+    # the outermost comprehension that is added to `groups`
+    adds = [b for b in ast.walk(f) if isinstance(b, ast.BinOp) and isinstance(b.op, ast.Add) and norm_src(b.left) == groups]
+    augs = [b for b in ast.walk(f) if isinstance(b, ast.AugAssign) and isinstance(b.op, ast.Add) and norm_src(b.target) == groups]
+    rhs = adds[0].right if adds else (augs[0].value if augs else None)
+    if rhs is None:
+        ctx.unrecognised(rid, site, "the completion is not `groups + [...]`")
+        return
+    if isinstance(rhs, ast.ListComp):
+        c = rhs
+        g = c.generators[0]
+        v = norm_src(g.target)
+        ok_iter = isinstance(g.iter, ast.Call) and call_name(g.iter) == "range" and norm_src(g.iter.args[-1]) == n
+        ok_if = len(g.ifs) == 1 and norm_src(g.ifs[0]).replace(" ", "") in (f"{v}notin{L}", f"not{v}in{L}", f"{v}notinset({L})")
+        if isinstance(c.elt, ast.List) and len(c.elt.elts) == 1 and norm_src(c.elt.elts[0]) == v and ok_iter and ok_if:
+            ctx.ok(rid, site, "one singleton per uncovered feature")
+        elif ok_iter and ok_if:
+            ctx.violation(rid, su.relpath, "check_groups", norm_src(rhs)[:120], f"the completion adds `{norm_src(c.elt)}` per uncovered feature, not the singleton [{v}]", line=rhs.lineno, site=site)
+        else:
+            ctx.unrecognised(rid, site, f"completion `{norm_src(rhs)[:80]}`")
+    elif isinstance(rhs, ast.List) and len(rhs.elts) == 1 and isinstance(rhs.elts[0], ast.ListComp):
+        ctx.violation(rid, su.relpath, "check_groups", norm_src(rhs)[:120], "all features that no group mentions are put into ONE additional group: they are then kept or "
+                      "discarded as a block instead of one by one", line=rhs.lineno, site=site)
+    else:
+        ctx.unrecognised(rid, site, f"completion `{norm_src(rhs)[:80]}`")
+
+
 # ------------------------------------------------------------------------------------------------ constraint_params wrapper
 def decorator_integrity(pm, ctx, rid):
     u = pm.unit("gemclus._constraints")
